@@ -293,6 +293,7 @@ def run_app(R, seed, aid, tier):
     if len(R.samples) < 2:
         R.sample({'app': aid, 'services': spec, 'permutations': len(perms)})
     duplicates(R, rng, seed, aid)
+    qualified_in_message(R, rng, seed, aid)
 
 
 def run_patterns(R, seed, aid, tier, spec, registered, perms, rng):
@@ -423,6 +424,58 @@ def miss_kind(sent, ran, ns):
     if sent.endswith(ran) or ran.endswith(sent):
         return 'prefix'
     return 'other'
+
+
+def qualified_in_message(R, rng, seed, aid):
+    """a method whose request element is declared in another namespace (_in_message_name='{ns}name') answers to that qualified name (what the
+    interface document tells clients to send) and to its name in the application's namespace; the same local name in any third namespace,
+    and the other methods' names in that namespace, name nothing"""
+    from spyne import Application, Service, rpc, Integer
+    from spyne.server.wsgi import WsgiApplication
+    Q, Q2 = 'urn:vf:c11:q', 'urn:vf:c11:q2'
+    a, b = rng.sample(['alpha', 'Alpha', 'beta', 'status', 'get', 'get_', 'x'], 2)
+    for kind in ('xml', 'soap11', 'soap12', 'json'):
+        calls = []
+
+        def mk(name, **kw):
+            def f(ctx):
+                calls.append(name)
+                return 1
+            f.__name__ = 'py_' + name
+            return rpc(_returns=Integer, **kw)(f)
+        S1 = type('QSvcA', (Service,), {'py_' + a: mk(a, _in_message_name='{%s}%s' % (Q, a))})
+        S2 = type('QSvcB', (Service,), {'py_' + b: mk(b, _in_message_name=b)})
+        inp, outp = M.make_protocols(kind, None)
+        order = [S1, S2] if aid % 2 else [S2, S1]
+        try:
+            app = Application(order, M.TNS, name='QApp', in_protocol=inp, out_protocol=outp)
+        except Exception as e:
+            R.violation('application with a namespace-qualified in-message name was rejected: %r' % e, {'seed': seed, 'app': aid, 'kind': kind},
+                        mech='valid_app_rejected:%s' % type(e).__name__)
+            return
+        wsgi = WsgiApplication(app)
+        cases = [(a, M.TNS, [a]), (b, M.TNS, [b])]
+        if kind != 'json':
+            cases += [(a, Q, [a]), (b, Q, []), (a, Q2, []), (b, Q2, [])]
+        for name, ns, want in cases:
+            req = request(kind, name, ns)
+            env, inpt = drive.make_environ(req['method'], req['path'], req['qs'], req['body'], req['content_type'])
+            del calls[:]
+            R.evaluations += 1
+            R.count('qualified_name_requests')
+            w = drive.call_wsgi(wsgi, env, inpt)
+            case = {'seed': seed, 'app': aid, 'kind': kind, 'name': name, 'ns': ns, 'methods': [[a, Q], [b, M.TNS]]}
+            if w.exc is not None:
+                R.violation('exception escaped for {%s}%s: %r' % (ns, name, w.exc), case, mech='escape:%s' % type(w.exc).__name__)
+                continue
+            if calls != want:
+                R.violation('request naming {%s}%s ran %r, expected %r' % (ns, name, calls, want), case,
+                            mech='qualified_name_dispatch:%s' % ('none' if not calls else 'wrong'))
+                continue
+            if not want and (w.code or 0) < 400:
+                R.violation('request naming the unregistered {%s}%s answered %s' % (ns, name, w.status), case, mech='qualified_name_not_refused')
+                continue
+            R.nontrivial('qualified', kind, ns == Q, ns == M.TNS, bool(want))
 
 
 def duplicates(R, rng, seed, aid):
